@@ -27,6 +27,9 @@ use std::path::{Path, PathBuf};
 use crate::dispatch::c05::open_nc;
 use crate::repo::{MemBackend, MemSource, RepoHandle, SRC_ROOT, SrcEntry, SrcKind};
 use crate::util::{Rng, Stats, errkind, guarded, hex, unhex};
+
+#[path = "c01_ixr.rs"]
+pub mod ixr;
 use rustic_core::repofile::{BlobType, Chunker, ConfigFile, MasterKey, Metadata, Node, NodeType, SnapshotFile};
 use rustic_core::{
     BackupOptions, BlobId, Credentials, Excludes, IndexedFull, KeyOptions, LocalDestination, LsOptions, PathList, Repository, RestoreOptions,
@@ -1005,6 +1008,7 @@ pub fn exec(toks: &[&str]) -> String {
                 let s = if linktarget_raw.is_some() { "-".to_string() } else { hex(linktarget.as_bytes()) };
                 format!("ok {} {} {s}", u8::from(linktarget_raw.is_some()), hex(&back))
             }
+            ["ixr", rest @ ..] => ixr::exec(rest),
             ["e2e", rest @ ..] => run_e2e(rest, false),
             ["e2el", rest @ ..] => run_e2e(rest, true),
             _ => "bad-op".into(),
@@ -1064,6 +1068,8 @@ fn gen_cfg(rng: &mut Rng, stats: &mut Stats) -> Cfg {
 }
 
 pub fn generate(thorough: bool, rng: &mut Rng, ops: &mut Vec<String>, stats: &mut Stats) {
+    // the indexer's index files (own rng stream, so the other generators keep their cases)
+    ixr::generate(thorough, &mut Rng::new(rng.below(1 << 60)), ops, stats);
     // file names
     for n in NAMES {
         ops.push(format!("c01 esc {}", hex(n)));
@@ -1172,7 +1178,7 @@ pub fn generate(thorough: bool, rng: &mut Rng, ops: &mut Vec<String>, stats: &mu
         ops.push(format!("c01 link {}", hex(&t)));
     }
     // end to end: the classic mix, shaped scenarios on the in-memory source, and real directories
-    let (n_classic, n_shaped, n_local) = if thorough { (1500, 120, 400) } else { (150, 16, 40) };
+    let (n_classic, n_shaped, n_local) = if thorough { (1500, 120, 400) } else { (150, 24, 60) };
     for _ in 0..n_classic {
         if let Some(l) = gen_case("classic", false, thorough, rng, stats) {
             ops.push(l);
